@@ -50,6 +50,9 @@ PATCHES = {
     # data embedded in a code patch, jumped over
     "embdata": ("jmp PD\n.byte 1, 2\nPD:\nnop", {"PD": 4}, None),
     "symexpr": ("movq L2(%rip), %rax", {}, None),
+    # a patch that also puts bytes into ANOTHER section (they are not part of what the patch inserts at its site)
+    # (used on shapes that HAVE a .data section: a patch that creates a new section makes the final layout move every section)
+    "othersec": ("pushq %rax\n.data\n.byte 7, 8, 9\n.text\npopq %rax", {}, None),
     # two calls to the same function in ONE patch
     "twocalls": ("call g\nnop\ncall g", {}, "call"),
     # a patch whose first block loops back to its own start
